@@ -23,7 +23,14 @@ Record case := mk_case {
   o_scanmaps : list row; o_scanmaps_ra : Z;   (* Scan into a slice of maps *)
   o_rowsmaps : list row;                      (* Rows + ScanRows into a slice of maps, row by row *)
   o_firstmap : option row; o_lastmap : option row; o_takemap : option row;  (* single-record finders into a map *)
-  o_errs : Z  (* number of unexpected errors reported by any path *)
+  o_errs : Z;  (* number of unexpected errors reported by any path *)
+  (* Count / Find into structs / Find into maps under a Select of columns (-1: not run) *)
+  o_selcount : Z; o_selfind : Z; o_selmaps : Z;
+  (* a table with the composite key (a, b) and value v; probes ((finder, (a, b)), (found, v)) of
+     First / Take / Last into a destination carrying the key: found 1, 0 = ErrRecordNotFound,
+     2 = another row or another error *)
+  c_ck : list (Z * Z * Z);
+  o_ckprobes : list ((Z * (Z * Z)) * (Z * Z))
 }.
 
 Definition has_lops (c : case) := match c_lops c with [] => false | _ => true end.
@@ -107,4 +114,26 @@ Definition spec_holds (c : case) : bool :=
        && forallb (fun b => match b with [] => false | _ => Z.of_nat (length b) <=? c_bs c end) (o_batches c)
        && (o_batches_ra c =? Z.of_nat (length f)))).
 
-Definition check_case (c : case) : N := code_of (model_agrees c) (spec_holds c).
+(* ---- selected columns, composite keys ---- *)
+Definition ck_lookup (t : list (Z * Z * Z)) (a b : Z) : option Z :=
+  option_map snd (List.find (fun r => (fst (fst r) =? a) && (snd (fst r) =? b)) t).
+Definition probe_ok (t : list (Z * Z * Z)) (p : (Z * (Z * Z)) * (Z * Z)) : bool :=
+  let '((_, (a, b)), (found, v)) := p in
+  match ck_lookup t a b with
+  | Some w => (found =? 1) && (v =? w)
+  | None => found =? 0
+  end.
+Definition extra_model_agrees (c : case) : bool :=
+  let n := Z.of_nat (length (matches (c_cond c) (c_tbl c))) in
+  ((o_selcount c =? -1) || ((o_selfind c =? n) && (o_selmaps c =? n)))
+  && forallb (probe_ok (c_ck c)) (o_ckprobes c).
+(* the property on what gorm returned: Count equals the rows Find returns whatever columns are
+   selected; a single-record finder returns the row with the destination's key, and
+   ErrRecordNotFound exactly when there is none *)
+Definition extra_spec_holds (c : case) : bool :=
+  ((o_selcount c =? -1) ||
+   ((o_selcount c =? o_selfind c) && (o_selcount c =? o_selmaps c) && (o_selfind c =? Z.of_nat (length (o_find c)))))
+  && forallb (probe_ok (c_ck c)) (o_ckprobes c).
+
+Definition check_case (c : case) : N :=
+  code_of (model_agrees c && extra_model_agrees c) (spec_holds c && extra_spec_holds c).
